@@ -132,6 +132,24 @@ Definition phase_ok (g : G) (a : Aux) (t : nat) (p : phase) : Prop :=
 Definition SI (g : G) (a : Aux) : Prop :=
   forall i u ku, slot_rec g i = Some (u, ku) -> exists ek, ph a u = EPub ku ek i /\ d_stat g u = 1%nat.
 
+(** hand-over invariant: a node sitting in a pop descriptor (op.pVal of an operation with idOp = op_pop) was handed
+    over through a collision slot.  Its push is spent (linearized: published, or its passive owner still waits with
+    op_collided in its descriptor), it is not in the stack, and no other pop descriptor holds it. *)
+Definition is_wait_push (p : phase) (k : nat) : Prop :=
+  match p with
+  | EPub k' (KPush _ _) _ | EFin k' (KPush _ _) => k' = k
+  | _ => False
+  end.
+
+Definition spent (g : G) (a : Aux) (n : node) : Prop :=
+  published a n \/ (is_wait_push (ph a (fst n)) (snd n) /\ d_stat g (fst n) = 2%nat).
+
+Definition holds_node (g : G) (u : nat) (n : node) : Prop := d_push g u = false /\ d_val g u = Some n.
+
+Definition HI (g : G) (a : Aux) : Prop :=
+  forall u n, holds_node g u n ->
+    spent g a n /\ ~ In n (stk a) /\ (forall u', holds_node g u' n -> u' = u).
+
 Definition Inv (g : G) (a : Aux) (tr : list (nat * ev)) : Prop :=
   chain (next g) (top g) (stk a) /\
   NoDup (stk a) /\
@@ -140,9 +158,12 @@ Definition Inv (g : G) (a : Aux) (tr : list (nat * ev)) : Prop :=
   SI g a /\
   (exists sts, @lp_run Stack lp_init (atr a) = Some (map (val g) (stk a), sts) /\
                forall t, sts t = status_of g t (ph a t)) /\
-  erase (atr a) = hist tr.
+  erase (atr a) = hist tr /\
+  HI g a.
 
 Notation safe := (@Conc.safe G V ev Aux phase view Inv).
+
+Ltac split_inv := refine (conj _ (conj _ (conj _ (conj _ (conj _ (conj _ (conj _ _))))))).
 
 Definition upd_a (a : Aux) (t : nat) (p : phase) (ae : list (aev Stack)) : Aux :=
   mkA (stk a) (atr a ++ ae) (set_ph (ph a) t p).
@@ -272,14 +293,17 @@ Lemma Inv_keep g g' a tr t m p' ae es :
   SI g' (upd_a a t p' ae) ->
   lp_ok t (map (val g) (stk a)) (status_of g t (ph a t)) (status_of g' t p') ae ->
   erase ae = hist (Conc.tag t es) ->
+  (d_push g' t = true \/ d_val g' t = None \/ (d_push g' t = d_push g t /\ d_val g' t = d_val g t)) ->
+  (forall k, is_wait_push (ph a t) k -> d_stat g t = 2%nat ->
+             (k < lim p')%nat \/ (is_wait_push p' k /\ d_stat g' t = 2%nat)) ->
   Inv g' (upd_a a t p' ae) (tr ++ Conc.tag t es).
 Proof.
-  intros (I1 & I2 & I3 & I4 & I5 & (sts & I6 & I6') & I7) Ht Hm L Hown Hsi Hlp Her.
+  intros (I1 & I2 & I3 & I4 & I5 & (sts & I6 & I6') & I7 & I8) Ht Hm L Hown Hsi Hlp Her Hd Hsp.
   pose proof (wr_not_in g g' a t m I3 Hm) as Hnin.
   pose proof Ht as (Ht1 & Ht2 & Ht3).
   assert (Hsame : forall n, In n (stk a) -> next g' n = next g n /\ val g' n = val g n).
   { intros n Hin. apply Ht2. intros ->. contradiction. }
-  unfold Inv. cbn [stk atr ph upd_a]. repeat split.
+  unfold Inv. cbn [stk atr ph upd_a]. split_inv.
   - rewrite Ht1. eapply chain_ext; [|exact I1]. intros n Hin. apply Hsame; auto.
   - exact I2.
   - intros n Hin. apply (published_mono a t p' (stk a) (atr a ++ ae) n L). auto.
@@ -298,10 +322,28 @@ Proof.
       * rewrite set_ph_other by exact Hu. rewrite R3 by exact Hu. rewrite I6'.
         symmetry. apply (others_status g g' a t m u Ht Hm Hu (I4 u)).
   - rewrite erase_app, hist_app, I7, Her. reflexivity.
+  - (* hand-over invariant *)
+    assert (Hold : forall u n, holds_node g' u n -> holds_node g u n).
+    { intros u n [H1 H2]. destruct (Nat.eq_dec u t) as [->|Hu].
+      - destruct Hd as [Hd|[Hd|[Hd1 Hd2]]]; [congruence|congruence|]. split; congruence.
+      - destruct (Ht3 u Hu) as (_ & E1 & E2 & _). split; congruence. }
+    intros u n Hh. destruct (I8 u n (Hold u n Hh)) as (Hs & Hn & Hun). split; [|split].
+    + destruct Hs as [Hs|[W S2]].
+      * left. apply (published_mono a t p' (stk a) (atr a ++ ae) n L Hs).
+      * destruct (Nat.eq_dec (fst n) t) as [E|E].
+        -- rewrite E in *. destruct (Hsp _ W S2) as [Hlt|[W' S']].
+           ++ left. unfold published; cbn. rewrite E, set_ph_same. exact Hlt.
+           ++ right. cbn. rewrite E, set_ph_same. auto.
+        -- right. cbn. rewrite set_ph_other by exact E. destruct (Ht3 _ E) as (_ & _ & _ & E4). rewrite E4. auto.
+    + exact Hn.
+    + intros u' Hh'. apply Hun. apply Hold. exact Hh'.
 Qed.
 
 Lemma Inv_phase g a tr t : Inv g a tr -> phase_ok g a t (ph a t).
 Proof. intros (_ & _ & _ & I4 & _). apply I4. Qed.
+
+Lemma Inv_HI g a tr : Inv g a tr -> HI g a.
+Proof. intros (_ & _ & _ & _ & _ & _ & _ & I8). exact I8. Qed.
 
 Lemma Inv_SI g a tr : Inv g a tr -> SI g a.
 Proof. intros (_ & _ & _ & _ & I5 & _). exact I5. Qed.
@@ -351,15 +393,15 @@ Lemma Inv_push_lp g a tr t k v p :
       (mkA ((t, k) :: stk a) (atr a ++ [ELin t]) (set_ph (ph a) t (EPushed k v)))
       (tr ++ Conc.tag t [EvAcc KCas obj_top true]).
 Proof.
-  intros (I1 & I2 & I3 & I4 & I5 & (sts & I6 & I6') & I7) Hp Htop.
+  intros (I1 & I2 & I3 & I4 & I5 & (sts & I6 & I6') & I7 & I8) Hp Htop.
   pose proof (I4 t) as Hme. rewrite Hp in Hme. cbn in Hme. destruct Hme as [Hnx Hval].
   assert (Hunpub : ~ published a (t, k)).
   { unfold published; cbn. rewrite Hp. cbn. lia. }
   assert (Hnin : ~ In (t, k) (stk a)) by (intros H; apply Hunpub, I3, H).
   assert (L : mono a t (EPushed k v)) by (unfold mono; rewrite Hp; cbn; lia).
   set (a' := mkA ((t, k) :: stk a) (atr a ++ [ELin t]) (set_ph (ph a) t (EPushed k v))).
-  unfold Inv. cbn [stk atr ph a']. repeat split.
-  - cbn. rewrite Hnx, <- Htop. exact I1.
+  unfold Inv. cbn [stk atr ph a']. split_inv.
+  - cbn. split; [reflexivity|]. rewrite Hnx, <- Htop. exact I1.
   - constructor; auto.
   - intros n [<-|Hin]; [|apply published_mono; auto].
     unfold published; cbn. rewrite set_ph_same. cbn. lia.
@@ -384,7 +426,7 @@ Lemma Inv_pop_lp g a tr t k n nx :
       (mkA (tl (stk a)) (atr a ++ [ELin t]) (set_ph (ph a) t (EPopG k n (val g n))))
       (tr ++ Conc.tag t [EvAcc KCas obj_top true]).
 Proof.
-  intros (I1 & I2 & I3 & I4 & I5 & (sts & I6 & I6') & I7) Hp Htop.
+  intros (I1 & I2 & I3 & I4 & I5 & (sts & I6 & I6') & I7 & I8) Hp Htop.
   pose proof (I4 t) as Hme. rewrite Hp in Hme. cbn in Hme. destruct Hme as (Hpubn & Hhp & Hnx).
   destruct (chain_head _ _ _ n I1 Htop) as (r & Hs & Hc).
   assert (Hin : In n (stk a)) by (rewrite Hs; left; reflexivity).
@@ -392,7 +434,7 @@ Proof.
   assert (L : mono a t (EPopG k n (val g n))) by (unfold mono; rewrite Hp; cbn; lia).
   assert (Hnd : NoDup (n :: r)) by (rewrite <- Hs; exact I2).
   apply NoDup_cons_iff in Hnd. destruct Hnd as [Hnotin Hnd].
-  unfold Inv. cbn [stk atr ph]. rewrite Hs. cbn [tl]. repeat split.
+  unfold Inv. cbn [stk atr ph]. rewrite Hs. cbn [tl]. split_inv.
   - cbn. rewrite <- Hnx. exact Hc.
   - exact Hnd.
   - intros x Hx. apply published_mono; auto. apply I3. rewrite Hs. right; exact Hx.
@@ -452,7 +494,7 @@ Lemma Inv_collide_push g a tr t k v q i u ku :
       (mkA (stk a) (atr a ++ [ELin t; ELin u]) (set_ph (ph a) t (EPushed k v)))
       (tr ++ Conc.tag t [EvAcc KSt (obj_status u ku) true]).
 Proof.
-  intros (I1 & I2 & I3 & I4 & I5 & (sts & I6 & I6') & I7) Hp Hslot Hkind.
+  intros (I1 & I2 & I3 & I4 & I5 & (sts & I6 & I6') & I7 & I8) Hp Hslot Hkind.
   destruct (I5 i u ku Hslot) as (ek & Eu & Su).
   pose proof (I4 u) as Hu. rewrite Eu in Hu. cbn in Hu. destruct Hu as (Up & _ & _).
   assert (ek = KPop) by (destruct ek; cbn in Up; congruence). subst ek.
@@ -463,7 +505,7 @@ Proof.
   set (a' := mkA (stk a) (atr a ++ [ELin t; ELin u]) (set_ph (ph a) t (EPushed k v))).
   assert (Hpub : forall n, published a n -> published a' n) by (intros; now apply published_mono).
   assert (Hini : forall n, inited a n -> inited a' n) by (intros; now apply inited_mono).
-  unfold Inv. cbn [stk atr]. repeat split.
+  unfold Inv. cbn [stk atr]. split_inv.
   - exact I1.
   - exact I2.
   - intros n Hin. apply Hpub, I3, Hin.
@@ -502,7 +544,7 @@ Lemma Inv_collide_pop g a tr t k i u ku :
       (mkA (stk a) (atr a ++ [ELin u; ELin t]) (set_ph (ph a) t (EPopX k (u, ku) vu)))
       (tr ++ Conc.tag t [EvAcc KSt (obj_status u ku) true]).
 Proof.
-  intros (I1 & I2 & I3 & I4 & I5 & (sts & I6 & I6') & I7) Hp Hslot Hkind.
+  intros (I1 & I2 & I3 & I4 & I5 & (sts & I6 & I6') & I7 & I8) Hp Hslot Hkind.
   destruct (I5 i u ku Hslot) as (ek & Eu & Su).
   pose proof (I4 u) as Hu. rewrite Eu in Hu. cbn in Hu. destruct Hu as (Up & Upriv & Ud).
   destruct ek as [vu qu|]; [|cbn in Up; congruence]. cbn in Upriv. destruct Upriv as [Unx Uval].
@@ -514,7 +556,7 @@ Proof.
   set (a' := mkA (stk a) (atr a ++ [ELin u; ELin t]) (set_ph (ph a) t (EPopX k (u, ku) vu))).
   assert (Hpub : forall n, published a n -> published a' n) by (intros; now apply published_mono).
   assert (Hini : forall n, inited a n -> inited a' n) by (intros; now apply inited_mono).
-  unfold Inv. cbn [stk atr]. repeat split.
+  unfold Inv. cbn [stk atr]. split_inv.
   - exact I1.
   - exact I2.
   - intros n Hin. apply Hpub, I3, Hin.
